@@ -79,5 +79,59 @@ def slots_of_step(step):
 
 def trace_slot(slot):
     """the part of a slot that goes into a TLC trace event (no floats, no free text)"""
-    keep = ("k", "q", "irr", "cur", "u", "d", "s", "day", "sod", "off", "zone", "nt")
+    keep = ("k", "q", "irr", "cur", "u", "d", "s", "day", "sod", "off", "zone", "nt", "parts", "digits", "pr")
     return {k: slot[k] for k in keep if k in slot}
+
+
+# ---------------------------------------------------------------------------------------------
+# printed durations -> parts [[count, unit, "one"|"many"], ...]  (table driven: the language's format table)
+# ---------------------------------------------------------------------------------------------
+import re
+
+_dur_tables = {}
+
+
+def _dur_table(lang):
+    if lang not in _dur_tables:
+        langs = config_json()["languages"]
+        fmt = langs.get(lang, langs["en"]).get("format", {}).get("duration", [])
+        ents = []
+        units_with_one = set()
+        for e in fmt:
+            unit = e["duration_type"].lower()
+            f = e["format"]
+            one = e["count"].strip().isdigit()
+            if one:
+                units_with_one.add(unit)
+            rx = re.escape(f)
+            rx = re.sub(r"\\\{[a-z]+\\\}", r"(\\d+)", rx)
+            ents.append((unit, one, int(e["count"]) if one else None, re.compile(rx)))
+        _dur_tables[lang] = (ents, units_with_one)
+    return _dur_tables[lang]
+
+
+def duration_parts(out, lang):
+    """'1 year 2 months' -> [[1,'year','one'],[2,'month','many']]; 'unparsed' when the text is not made of the
+    language's own duration phrases. A language without a singular phrase for a unit has only one word for it:
+    that word is reported as 'one' for count 1 (it is trivially the correct word)."""
+    ents, with_one = _dur_table(lang)
+    s = out.strip()
+    parts = []
+    while s:
+        best = None
+        for unit, one, cnt, rx in ents:
+            m = rx.match(s)
+            if m and (m.end() == len(s) or s[m.end()] == " "):
+                n = cnt if one and not m.groups() else int(m.group(1)) if m.groups() else cnt
+                cand = (m.end(), unit, one, n)
+                if best is None or cand[0] > best[0] or (cand[0] == best[0] and one):
+                    best = cand
+        if best is None:
+            return "unparsed"
+        end, unit, one, n = best
+        cls = "one" if one else "many"
+        if unit not in with_one and n == 1:
+            cls = "one"
+        parts.append([n, unit, cls])
+        s = s[end:].lstrip(" ")
+    return parts
